@@ -497,6 +497,17 @@ def thread_none_tests_function(fn) -> int:
         while i < len(stmts):
             st = stmts[i]
             nxt = stmts[i + 1] if i + 1 < len(stmts) else None
+            # if-tree whose leaves all end with `r = V`, followed by `return r`: the leaves return V
+            if isinstance(st, ast.If) and st.orelse and isinstance(nxt, ast.Return) and isinstance(nxt.value, ast.Name):
+                leaves = _leaves(st, nxt.value.id)
+                if leaves:
+                    for lst, _v in leaves:
+                        last = lst[-1]
+                        lst[-1] = ast.copy_location(ast.Return(value=last.value), last)
+                    out.append(st)
+                    i += 2
+                    n += 1
+                    continue
             if isinstance(st, ast.If) and st.orelse and isinstance(nxt, ast.If):
                 names = {nd.id for nd in ast.walk(nxt.test) if isinstance(nd, ast.Name)}
                 done = False
@@ -613,4 +624,47 @@ def strip_inline_suffixes_repo(repo) -> int:
     for f in list(repo.funcs.values()):
         if isinstance(f, FuncInfo) and f.outer is None and getattr(f, "inlined", None):
             n += strip_inline_suffixes_function(f.node)
+    return n
+
+
+# --------------------------------------------------------------------------- C18
+def dead_alias_function(fn) -> int:
+    """C18: ``a = b`` (two plain names, top level of the function) where ``b`` is never mentioned afterwards and
+    ``a`` never before: from there on ``a`` IS ``b`` under a new name - renamed back and the copy dropped."""
+    body = fn.body
+    if any(isinstance(n, (ast.FunctionDef, ast.AsyncFunctionDef, ast.Lambda, ast.ClassDef)) for st in body for n in ast.walk(st) if n is not st or isinstance(n, ast.Lambda)):
+        pass
+    done = 0
+    k = 0
+    while k < len(body):
+        st = body[k]
+        if isinstance(st, (ast.Assign, ast.AnnAssign)) and isinstance(getattr(st, "value", None), ast.Name):
+            tg = st.targets if isinstance(st, ast.Assign) else [st.target]
+            if len(tg) == 1 and isinstance(tg[0], ast.Name) and tg[0].id != st.value.id:
+                a, b = tg[0].id, st.value.id
+                before = [n for s_ in body[:k] for n in ast.walk(s_) if isinstance(n, ast.Name) and n.id == a]
+                after_b = [n for s_ in body[k + 1:] for n in ast.walk(s_) if isinstance(n, ast.Name) and n.id == b]
+                nested = any(isinstance(n, (ast.FunctionDef, ast.AsyncFunctionDef, ast.Lambda)) and any(isinstance(x, ast.Name) and x.id in (a, b) for x in ast.walk(n)) for s_ in body for n in ast.walk(s_))
+                glob = any(isinstance(n, (ast.Global, ast.Nonlocal)) for s_ in body for n in ast.walk(s_))
+                if not before and not after_b and not nested and not glob and not b.startswith("__") and b not in ("self", "cls"):
+                    for s_ in body[k + 1:]:
+                        for n in ast.walk(s_):
+                            if isinstance(n, ast.Name) and n.id == a:
+                                n.id = b
+                    del body[k]
+                    done += 1
+                    continue
+        k += 1
+    if done:
+        if not body:
+            body.append(ast.Pass())
+        _refresh(fn)
+    return done
+
+
+def dead_alias_repo(repo) -> int:
+    n = 0
+    for f in list(repo.funcs.values()):
+        if isinstance(f, FuncInfo) and f.outer is None:
+            n += dead_alias_function(f.node)
     return n
